@@ -110,7 +110,8 @@ fn part_glob(max_mask: u32, max_text: u32) -> PartResult {
 fn part_norm(max: u32) -> PartResult {
     let t0 = Instant::now();
     let mut r = PartResult::new("fun:normalize", "E-FUN");
-    let alpha = ['n', '!', '@', '*'];
+    // one multi-byte character: the completion rules cut the mask at '!' and '@'
+    let alpha = ['n', '!', '@', '*', 'é'];
     let all = all_strings(&alpha, max);
     let mut outs = BTreeSet::new();
     for m in &all {
@@ -128,7 +129,7 @@ fn part_norm(max: u32) -> PartResult {
     r.traces = r.evaluations;
     r.exhaustive = true;
     r.samples = vec![json!({"mask":"n","expected":"n!*@*"}), json!({"mask":"n@n","expected":"n!*@n"}), json!({"mask":"n!n","expected":"n!n@*"})];
-    r.extra = json!({"alphabet":"n ! @ *","max_len":max});
+    r.extra = json!({"alphabet":"n ! @ * é","max_len":max});
     r.wall_s = t0.elapsed().as_secs_f64();
     r
 }
@@ -398,7 +399,7 @@ pub fn plan(quick: bool) -> Plan {
     let (mm, mt, mw) = if quick { (6, 6, 3) } else { (8, 7, 3) };
     Plan {
         property: "C14".into(),
-        rule: format!("every mask of length <= {} over {{a,b,*,?}} against every text of length <= {} over {{a,b,é}} (plus named corner cases) through the real match_wildcard, compared with a recursive reference glob, each call under catch_unwind; every string <= 6 over {{n,!,@,*}} through normalize_sourcemask vs the three completion rules; wire conformance: every mask <= {} over {{a,*,?}} plus 10 multi-part masks, for 8 callers (+b, +e, +I, speaking, WHO, WHOIS, operator mask, user mask) and 4 identities, in a real server world", mm, mt, mw),
+        rule: format!("every mask of length <= {} over {{a,b,*,?}} against every text of length <= {} over {{a,b,é}} (plus named corner cases) through the real match_wildcard, compared with a recursive reference glob, each call under catch_unwind; every string <= 6 over {{n,!,@,*,é}} through normalize_sourcemask vs the three completion rules; wire conformance: every mask <= {} over {{a,*,?}} plus 10 multi-part masks, for 8 callers (+b, +e, +I, speaking, WHO, WHOIS, operator mask, user mask) and 4 identities, in a real server world", mm, mt, mw),
         assumptions: vec!["alphabets contain every character the matcher treats specially plus one multi-byte character".into()],
         parts: vec![
             Part::Custom("fun:glob".into(), Box::new(move || part_glob(mm, mt))),
